@@ -393,6 +393,11 @@ def alphabet(kind, thorough):
         ops += [('upd', T1, None, None, None)] + [('upd', None, b, None, None) for b in (True, False)]
         ops += [('upd', None, None, b, None) for b in (True, False)] + [('upd', None, None, None, b) for b in (True, False)]
         ops += [('upd', T1, h, g, d) for h in (True, False) for g in (True, False) for d in (True, False)]
+    elif not thorough:
+        # quick tier: every None/True/False combination of hard, gumbel, disable_sampling without a temperature, and
+        # with a new temperature the bare update and the fully specified ones
+        ops += [('upd', None, h, g, d) for h in tf for g in tf for d in tf if (h, g, d) != (None, None, None)]
+        ops += [('upd', T1, None, None, None)] + [('upd', T1, h, g, d) for h in (True, False) for g in (True, False) for d in (True, False)]
     else:
         ops += [('upd', t, h, g, d) for t in ts for h in tf for g in tf for d in tf]
     ops += [('train',), ('eval',), ('fwd', 0), ('opt', A0[kind]), ('opt', A1[kind])]
@@ -704,7 +709,7 @@ def run(ctx):
             results += rs
             closure[kind] = {'abstract_states': nstates, 'transitions_executed': len(rs), 'closed': closed, 'depth': depth}
         ctx.extra['closure'] = closure
-        results += list(pool.map(exec_case, specs_random(ctx, 150 if ctx.quick else 1500), chunksize=8))
+        results += list(pool.map(exec_case, specs_random(ctx, 100 if ctx.quick else 1500), chunksize=8))
         mres = list(pool.map(exec_model, specs_models(ctx, 32 if ctx.quick else 300), chunksize=2))
     ctx.extra['t_impl_s'] = round(time.time() - ctx.t0, 1)
     ctx.exhaustive = all(c['closed'] for c in closure.values())
